@@ -132,7 +132,7 @@ func checkC06(w *SketchWorld, slot int) (fails []mc.Fail) {
 					return
 				}
 				mc.Count("decodes", 1)
-				if t.K == sl.Store.K && t.N == 0 && n == 0 {
+				if t.K == sl.Store.K && t.N == 0 {
 					// same answers to every query (same store kind, unbounded)
 					if a, b := ObserveSketch(dec.Q()), before; a != b {
 						fail("C06.same-answers", "the decoded sketch answers differently\n  decoded:  %s\n  original: %s", a, b)
